@@ -641,7 +641,11 @@ def vvClasses (m : VMatch) (op : BinOp) (l r : List XElem) : List String :=
         | none => false) then ["binop-division-by-zero"] else []) ++
   (if !m.isDefault && (l ++ r).any (fun e => e.1.any (fun kv => !(kv.1.toList.all wordChar && kv.2.toList.all wordChar) || kv.2.isEmpty))
      then ["vector-matching-label-chars"] else []) ++
-  (if !m.isDefault && op.isSet then ["set-operator-with-on"] else [])
+  (if !m.isDefault && op.isSet then ["set-operator-with-on"] else []) ++
+  -- RECORDED (residue of the repair c09-18): a series id that does not end with "," (the ids of `by` aggregations) and whose
+  -- braces balance is taken to be written with a closing brace — the form the repo's own test uses — so a label value
+  -- that ENDS with "}" loses it there and the element misses its partner
+  (if !m.isDefault && (l ++ r).any (fun e => e.1.any (fun kv => kv.2.endsWith "}")) then ["vector-matching-value-ends-with-brace"] else [])
 
 def Expr.isLeaf : Expr → Bool
   | .vec _ => true
@@ -679,7 +683,9 @@ def exprClasses (ds : List Series) (start end_ : Nat) : Expr → List String
      | some (.vector _), some (.scalar y) => if op == .div && y == 0 && b == false then ["binop-division-by-zero"] else []
      -- (repaired, c09-22) a comparison filter with a COMPUTED scalar on the left, and `<number> != v`, kept the scalar instead
      -- of the sample of the vector
-     | some (.scalar _), some (.vector _) => if op.isCmp && !b && (!l.isLeaf || op == .ne) then ["comparison-scalar-on-the-left"] else []
+     | some (.scalar _), some (.vector re) =>
+        (if op.isCmp && !b && (!l.isLeaf || op == .ne) then ["comparison-scalar-on-the-left"] else []) ++
+        (if op == .div && re.any (fun e => e.2.any (fun p => match p.2 with | .val v => v == 0 | _ => false)) then ["binop-division-by-zero"] else [])
      | _, _ => [])
 
 /-- the order in which the engine writes the label keys of a series into its id: the keys with a (non-name) value
